@@ -120,6 +120,7 @@ type GlobalInv struct {
 }
 
 type ContractSet struct {
+	guards    [][3]string // struct type (pkg.Name), field, lock field
 	globalInvs []*GlobalInv
 	typeInvs  [][2]string
 	axioms    []*Axiom
@@ -270,10 +271,21 @@ func (cs *ContractSet) parseFile(path, pkgDir string, extern bool) {
 				continue
 			}
 			cs.globalInvs = append(cs.globalInvs, &GlobalInv{Label: lm[1], Text: lm[2], Pkg: pkgDir, Checked: word == "globalinv", File: where})
+		case word == "guardedby":
+			f := strings.Fields(rest)
+			if len(f) == 2 && strings.Contains(f[0], ".") {
+				i := strings.Index(f[0], ".")
+				cs.guards = append(cs.guards, [3]string{pkgShort(pkgDir) + "." + f[0][:i], f[0][i+1:], f[1]})
+			}
 		case word == "typeinv":
 			f := strings.Fields(rest)
 			if len(f) == 2 {
 				cs.typeInvs = append(cs.typeInvs, [2]string{f[0], f[1]})
+			}
+		case word == "mapinv" && strings.Contains(strings.Fields(rest+" x")[0], "."):
+			f := strings.Fields(rest)
+			if len(f) == 2 {
+				cs.mapInvs = append(cs.mapInvs, [2]string{"F:" + pkgShort(pkgDir) + "." + f[0], f[1]})
 			}
 		case word == "mapinv":
 			f := strings.Fields(rest)
@@ -755,7 +767,7 @@ func (cs *ContractSet) buildOverlay() (map[string][]byte, error) {
 			}
 		}
 		var body strings.Builder
-		body.WriteString("\nfunc forall(lo, hi int, f func(k int) bool) bool\nfunc exists(lo, hi int, f func(k int) bool) bool\nfunc ns(t time.Time) int64\n")
+		body.WriteString("\nfunc forall(lo, hi int, f func(k int) bool) bool\nfunc exists(lo, hi int, f func(k int) bool) bool\nfunc ns(t time.Time) int64\nfunc NoLocksHeld() bool\n")
 		if dir == "" {
 			for _, d := range cs.extDecls {
 				body.WriteString(d + "\n")
@@ -977,6 +989,9 @@ func (cs *ContractSet) resolve(e *Engine) {
 	}
 	for _, ti := range cs.typeInvs {
 		e.typeInv[ti[0]] = ti[1]
+	}
+	for _, g := range cs.guards {
+		e.guards[g[0]+"."+g[1]] = g[2]
 	}
 	for _, gi := range cs.globalInvs {
 		gi.Fn = find(gi.Pkg, gi.FnName)
